@@ -352,11 +352,10 @@ Definition do_remove (s : st) key ubad : st * res :=
       else (cleanup_dirs ubad s1 (cleanup_list s1 false), ROk)
   end.
 
-(* storage.IDMap fails with NotFound while the snapshots bucket does not exist yet, i.e. until the first
-   createSnapshot has committed (seq = 0): Cleanup then returns that error and removes nothing. *)
+(* storage.IDMap/WalkInfo answer NotFound while the snapshots bucket does not exist yet (seq = 0);
+   getCleanupDirectories tolerates that (fix C09-fix-1): no directory belongs to a snapshot then. *)
 Definition do_cleanup (s : st) ubad : st * res :=
   if closed s then (s, RErr EOther) else
-  if Nat.eqb (seq s) 0 then (s, RErr ENotFound) else
   (cleanup_dirs ubad s (cleanup_list s false), ROk).
 
 Definition do_close (s : st) ubad : st * res :=
